@@ -1,5 +1,7 @@
 (* C08 — what is reported for a file depends only on that file. *)
 From CPF Require Import Base.Bytes Scan.Cst Scan.Build Scan.BuildFacts Scan.Merge Scan.MergeFacts.
+From CPF Require Import Base.Skel Scan.PoolSkel.
+From CPF.gen Require Import Tables.
 From Coq Require Import Permutation.
 
 (* the per-file graph is a function of (path, bytes, tree) alone: build_file takes nothing else *)
@@ -32,3 +34,11 @@ Print Assumptions C08_unreadable_dir_hides_only_itself.
 
 (* every edge of a per-file graph joins two entities created from that file's tree: links never
    cross files *)
+
+(* the worker loop that gives every file its own parser state, local graph and error exits is the one
+   Scan/Pool.v and the per-file model describe: one `range` over the file channel, the hook, readFile and
+   ParseCtx as the only error exits (each a plain `continue`), one call of buildGraphFromAST, then the sends
+   -- nothing else between them (regenerated from graph.Initialize on every run, Scan/PoolSkel.v) *)
+Theorem C08_worker_loop : pool_program = pool_program_modelled.
+Proof. exact pool_program_matches. Qed.
+Print Assumptions C08_worker_loop.
